@@ -83,6 +83,8 @@ pub fn catch<T>(f: impl FnOnce() -> T) -> Result<T, String> {
 }
 
 pub fn silence_panics() {
-    panic::set_hook(Box::new(|_| {}));
+    if std::env::var_os("VH_NOSILENCE").is_none() {
+        panic::set_hook(Box::new(|_| {}));
+    }
 }
 
